@@ -46,3 +46,15 @@ Example C05_nonvacuous :
   branch_bytes 128 (32768 - (32773 + 2)) = Ok [128; 249] /\ branch_bytes 128 128 = Err EStruct /\
   branch_bytes 208 (-128) = Ok [208; 128].
 Proof. repeat split; reflexivity. Qed.
+
+(** The "file offset in step with the run address" hypothesis of C05_encode is exactly the emission
+    invariant of C03 ([synced], re-established by every [*=] and kept by every other node): in any
+    in-step emission state a branch to an in-window target of the same bank is encoded with its true
+    displacement, or rejected when it is out of range. *)
+From A816 Require Import Model.Program Proofs.ProgramProofs.
+Theorem C05_in_step : forall w m st op t,
+  synced m st -> get_bus w (e_r st) = Ok (a_bus (r_reloc (e_r st))) ->
+  let p := a_val (r_reloc (e_r st)) in
+  in_window m t -> bank_of t = bank_of p -> byte_ok op = true ->
+  rel_emit w (e_r st) op (Some (Ok t)) = branch_bytes op (t - (p + 2)).
+Proof. exact branch_in_step. Qed.
